@@ -562,6 +562,13 @@ func VerifC15_Events() {
 	}
 	parents := []*verifC15Parent{verifC15NewParent(parentNamespaced, pns, "p", "puid")}
 	parentRes := []*dynamicdiscovery.APIResource{parents[0].res}
+	if rt.Bool("parent-is-being-finalized") {
+		// pending deletion, held by the controller's finalizer: its finalize hook is
+		// sent the related objects too, so their changes must wake it as well
+		rt.Cover("finalizing-parent")
+		env.MarkDeleting(parents[0].obj)
+		parents[0].obj.SetFinalizers([]string{"metacontroller.k8s.io/compositecontroller-cc"})
+	}
 	if rt.Tier() > 0 {
 		// a second parent of the same kind, or (as with a decorator watching
 		// several resources) of the kind with the other scope
